@@ -800,6 +800,14 @@ func validateLeaseSet2Inputs(
 	if err := validateEncryptionKeyInputs(encryptionKeys); err != nil {
 		return err
 	}
+	// The structural checks of Validate(): key length matching its type, reserved
+	// flag bits, lease count. A value the constructor returns has to pass Validate().
+	if err := validateEncryptionKeys(encryptionKeys); err != nil {
+		return err
+	}
+	if err := validateReservedFlagsAndLeases(flags, leases); err != nil {
+		return err
+	}
 	return validateLeaseInputs(leases)
 }
 
